@@ -376,7 +376,7 @@ impl Arm for C14 {
     }
     fn runs(&self, tier: Tier) -> u64 {
         match tier {
-            Tier::Quick => 160,
+            Tier::Quick => 240,
             Tier::Thorough => 3000,
         }
     }
